@@ -1,8 +1,8 @@
 #!/usr/bin/env python3
 """Prints a markdown table of what the last run of every check covered (from /verif/evidence/*.json)."""
-import json, glob
+import json, glob, sys
 rows = []
-for f in sorted(glob.glob("/verif/evidence/C*.json")):
+for f in sorted(glob.glob((sys.argv[1] if len(sys.argv) > 1 else "/verif/evidence") + "/C*.json")):
     e = json.load(open(f))
     c = e["coverage"]
     rows.append((e["property_id"], e["tier"], e["seed"], c["evaluations"], c["distinct_nontrivial"], c.get("generated_programs", "–"), "yes" if c.get("exhaustive") else "no", e["wall_s"], e.get("violations", 0)))
